@@ -1,5 +1,5 @@
 #!/bin/bash
 # re-run every stored behaviour-preserving refactoring (harmless*/) against the current checks, N at a time (default 4)
 cd /verif
-ls -d harmless/*_* harmless2/*_* harmless3/*_* harmless4/*_* | xargs -P ${1:-4} -L 1 tools/reharmless.sh
+ls -d harmless/*_* harmless2/*_* harmless3/*_* harmless4/*_* harmless5/*_* | xargs -P ${1:-4} -L 1 tools/reharmless.sh
 echo ALLDONE
